@@ -113,7 +113,9 @@ def _body(data, pos, head, te, cl):
     elif cl:
         if not re.fullmatch(rb"[0-9]+", cl[0]):
             raise Bad("Content-Length")
-        n = int(cl[0])
+        if len(cl[0].lstrip(b"0")) > 18:
+            raise Incomplete()   # a body of that size cannot be present in any generated stream
+        n = int(cl[0].lstrip(b"0") or b"0")
         framing = "length"
         if len(data) < pos + n:
             raise Incomplete()
